@@ -99,17 +99,30 @@ def tree_digest():
     return _TD
 
 
+def _prop_num():
+    p = os.environ.get("VERIF_PROP", "")
+    return int(p[1:]) if len(p) >= 2 and p[0] == "C" and p[1:].isdigit() else None
+
+
 def _csrc_digest(sources, kind="shim"):
-    """digest of the harness sources that can influence this build: for the shim, shim.c and its shim_*.inc files;
-    for executables, the listed sources plus every header / .inc that is not part of the shim"""
+    """digest of the harness sources that can influence this build: for the shim, shim.c, the dispatcher and the
+    wrappers of the property being checked; for executables, the listed sources plus every header / .inc they can include"""
     h = hashlib.sha256()
     d = os.path.join(VERIF, "csrc")
+    pn = _prop_num()
+    text = ""
+    if kind != "shim":
+        for s_ in sources:
+            try:
+                text += open(os.path.join(d, s_), errors="replace").read()
+            except OSError:
+                pass
     for fn in sorted(os.listdir(d)):
         is_shim = fn.startswith("shim")
         if kind == "shim":
-            take = is_shim
+            take = fn in ("shim.c", "shim_internal.inc") or (is_shim and (pn is None or fn == "shim_C%02d.inc" % pn))
         else:
-            take = (fn in sources) or (not is_shim and fn.endswith((".h", ".inc")))
+            take = (fn in sources) or (not is_shim and fn.endswith((".h", ".inc"))) or (is_shim and ('"%s"' % fn) in text)
         if take:
             with open(os.path.join(d, fn), "rb") as f:
                 h.update(fn.encode() + hashlib.sha256(f.read()).digest())
@@ -133,6 +146,8 @@ def build(cfg, kind="shim", sources=None, out=None, link=(), cflags=(), tables=T
     if sources is None:
         sources = ["shim.c"]
     flags = cfg.flags() + list(cflags)
+    if kind == "shim" and _prop_num() is not None:
+        flags.append("-DVF_PROP=%d" % _prop_num())
     key = hashlib.sha256(("|".join([tree_digest(), _csrc_digest(sources, kind), cfg.cc, " ".join(flags), kind,
                                     " ".join(sources), " ".join(link), REPO])).encode()).hexdigest()[:20]
     d = os.path.join(BUILD, "%s-%s" % (cfg.name, key))
@@ -155,7 +170,9 @@ def build(cfg, kind="shim", sources=None, out=None, link=(), cflags=(), tables=T
             cmd += ["-shared", "-fvisibility=hidden"]
         tmp = target + ".tmp%d" % os.getpid()
         cmd += srcs + ["-o", tmp] + list(link)
-        r = subprocess.run(cmd, capture_output=True, text=True)
+        cenv = dict(os.environ)
+        cenv.pop("LD_PRELOAD", None)      # never run the compiler under a preloaded sanitizer runtime
+        r = subprocess.run(cmd, capture_output=True, text=True, env=cenv)
         if r.returncode != 0:
             raise BuildError("build failed (%s):\n%s\n%s" % (cfg.name, " ".join(cmd), r.stderr[-6000:]))
         os.rename(tmp, target)
